@@ -42,12 +42,14 @@ def err? : Sexp → Option Err
   | .atom "missingFeatures" => some .missingFeatures
   | .atom "fatal" => some .fatal
   | .atom "notRunning" => some .notRunning
+  | .atom "brokenPool" => some .brokenPool
   | .list [.atom "invalid", p, k] => do pure (.invalid (← p.nat?) (← k.nat?))
   | _ => none
 
 def ofErr : Err → Sexp
   | .missingApp => .atom "missingApp" | .unsupported => .atom "unsupported"
   | .missingFeatures => .atom "missingFeatures" | .fatal => .atom "fatal" | .notRunning => .atom "notRunning"
+  | .brokenPool => .atom "brokenPool"
   | .invalid p k => .list [.atom "invalid", Sexp.ofNat p, Sexp.ofNat k]
 
 def outcome? : Sexp → Option Outcome
